@@ -102,14 +102,32 @@ def cross_shape_failure(desc, h, k, ups, seed):
 
 
 def requery_failure(desc, order):
-    """one pattern object queried for the shapes in `order`: every answer must be what a fresh object gives"""
-    pattern = cl.pattern_from_desc(desc)
+    """one pattern object queried for the shapes in `order`; every array it hands out is then modified in place by the caller (normalised,
+    clipped, ...), and so are the arrays and the radial map of ANOTHER object built from the same parameters.  Every answer -- of the used
+    object and of an object built afterwards -- must be what a fresh object gave before any of that happened."""
+    first = cl.pattern_from_desc(desc)
+    ref = {}
     for s in order:
-        fresh = cl.pattern_from_desc(desc)
-        m1, m2 = pattern.get_mask(s), fresh.get_mask(s)
-        t1, t2 = pattern.get_template(s), fresh.get_template(s)
-        if not (np.array_equal(m1, m2, equal_nan=True) and np.array_equal(t1, t2, equal_nan=True)):
-            return 'pattern object re-queried for shape %s after %s differs from a fresh object' % (s, order)
+        if s not in ref:
+            ref[s] = (np.array(first.get_mask(s), copy=True), np.array(first.get_template(s), copy=True))
+    pattern, other = cl.pattern_from_desc(desc), cl.pattern_from_desc(desc)
+
+    def scribble(a):
+        a = np.asarray(a)
+        if a.flags.writeable:
+            a[...] = a * 0.5 + 3.0
+    for k, s in enumerate(order):
+        for who, obj in (('the used object', pattern), ('an object built afterwards', cl.pattern_from_desc(desc) if k % 3 == 2 else None)):
+            if obj is None:
+                continue
+            m1, t1 = obj.get_mask(s), obj.get_template(s)
+            if not (np.array_equal(m1, ref[s][0], equal_nan=True) and np.array_equal(t1, ref[s][1], equal_nan=True)):
+                return 'pattern object (%s) queried for shape %s after %s (returned arrays were modified in place by the caller) differs from a fresh object' % (who, s, order[:k])
+            scribble(m1)
+            scribble(t1)
+        scribble(other.get_mask(s))
+        if getattr(other, 'radial_map', None) is not None:
+            scribble(other.radial_map)          # the other object's own parameter, rescaled in place ("physical coordinates")
     return None
 
 
@@ -222,9 +240,13 @@ def run(ctx):
     # pattern objects and matchers re-used across queries
     nobj = 0
     for k in range(ctx.n(20, 100)):
-        pattern, desc = cl.rand_pattern(rng, cmax=5)
+        pattern, desc = cl.rand_pattern(rng, cmax=5, kinds=[cl.PATTERN_KINDS[k % len(cl.PATTERN_KINDS)]])      # every class in turn
         shapes = [(int(rng.integers(2, 30)), int(rng.integers(2, 30))) for _ in range(3)]
         shapes += [(shapes[0][0], shapes[0][1] ^ 1), (shapes[1][0], shapes[1][1] ^ 1)]   # same rfft2 shape, different width
+        if desc['kind'] == 'UserTemplate':
+            # shapes that need no padding on either axis (the template's own shape and smaller ones): get_mask then only crops
+            ty, tx = np.array(desc['template']).shape
+            shapes += [(ty, tx), (max(1, ty - 1), max(1, tx - 2)), (ty, max(1, tx - 1))]
         order = shapes + shapes[::-1] + [shapes[i] for i in rng.permutation(len(shapes))]
         nobj += len(order)
         fail = requery_failure(desc, order)
